@@ -13,8 +13,11 @@ verus! {
 #[derive(Clone, Copy, Debug, PartialEq, Eq)]
 //@extract enum renet/src/error.rs ChannelError
 
+//@extract struct renet/src/packet.rs Slice
 //@extract struct renet/src/channel/slice_constructor.rs SliceConstructor
 
+//@include contracts/shared/count_specs.rs
+//@include contracts/shared/slice_specs.rs
 //@include contracts/shared/sc_specs.rs
 
 broadcast use {count_lemmas::lemma_count_true_all_false, axiom_vec_index_mut_range};
